@@ -600,6 +600,40 @@ func FaultJobs(rng *rand.Rand, thorough bool) []FaultJob {
 			}
 		}
 	}
+	// "one failed signal write": ATP v3, a signalsToStep channel that the caller LEAVES OPEN (Close
+	// ends the signal writer through the context), exactly one signal whose write fails - its data
+	// holds a value the CBOR encoder refuses, or that one write of the transport fails - while every
+	// later write (client-done in particular) succeeds; then Close. The signal writer goroutine must
+	// end after the failed write (model: `wSend w false`), or Close waits for it for ever. With a
+	// healthy stream and with the stream ending / failing at various offsets.
+	{
+		mk := func(name string, unenc int) Session {
+			return unhealthy(hs("", 3,
+				[]DOp{{Op: "exec", R: "r1", To: true, From: true}, {Op: "awaitws", R: "r1"}, {Op: "sig", R: "r1", SR: "r1", Unenc: unenc}, {Op: "mark", N: 1},
+					{Op: "join", R: "r1"}, {Op: "exec", R: "r2"}, {Op: "join", R: "r2"}, {Op: "close"}},
+				[]SOp{{Op: "expectws", R: "r1"}, {Op: "expectmark", N: 1}, {Op: "sig", R: "r1"}, {Op: "done", R: "r1", X: 1},
+					{Op: "expectws", R: "r2"}, {Op: "done", R: "r2", X: 2}, {Op: "expectdone"}}), name)
+		}
+		unencS := mk("f-sigfail-unencodable", 1)
+		onceS := mk("f-sigfail-one-write", 0)
+		pendS := unhealthy(hs("", 3,
+			[]DOp{{Op: "exec", R: "r1", To: true}, {Op: "exec", R: "r2", To: true}, {Op: "awaitws", R: "r1"}, {Op: "awaitws", R: "r2"},
+				{Op: "sig", R: "r1", SR: "r1", Unenc: 1}, {Op: "sig", R: "r2", SR: "r2"}, {Op: "aclose"}, {Op: "joinall"}, {Op: "jclose"}},
+			[]SOp{{Op: "expectws", R: "r1"}, {Op: "expectws", R: "r2"}, {Op: "expectdone"}, {Op: "done", R: "r2", X: 2}, {Op: "done", R: "r1", X: 1}}), "f-sigfail-close-pending")
+		_, bounds := Transcript(unencS)
+		faults := []*Fault{nil, {Kind: "cut", Off: bounds[0] + 2}, {Kind: "cut", Off: bounds[1]}, {Kind: "cut", Off: bounds[2] - 3},
+			{Kind: "ioerr", Off: bounds[1] + 4, Val: 0}, {Kind: "ioerr", Off: bounds[2], Val: 1}, {Kind: "xor", Off: bounds[1] + 1, Val: 0x80}}
+		for _, f := range faults {
+			for _, t := range []string{"pipe", "buf"} {
+				out = append(out, FaultJob{Job{Session: unencS, Transport: t, ChunkSeed: rng.Int63(), WriteFailAfter: -1, TimeoutMs: 1500, Fault: f}, "c08-sigfail"})
+				// writes: 1 start-output, 2 work-start r1, 3 the signal (fails, only that one), 4 ...
+				out = append(out, FaultJob{Job{Session: onceS, Transport: t, ChunkSeed: rng.Int63(), WriteFailAfter: 2, WriteFailOnce: true, TimeoutMs: 1500, Fault: f}, "c08-sigfail"})
+			}
+		}
+		for _, t := range []string{"pipe", "buf"} {
+			out = append(out, FaultJob{Job{Session: pendS, Transport: t, ChunkSeed: rng.Int63(), WriteFailAfter: -1, TimeoutMs: 1500}, "c08-sigfail"})
+		}
+	}
 	// the write side fails while the peer stays silent and keeps its output open until Close is over
 	silent := Session{Name: "f-wfail-silent", Ver: 3,
 		Dir: []DOp{{Op: "rs"}, {Op: "exec", R: "r1"}, {Op: "join", R: "r1"}, {Op: "close"}, {Op: "mark", N: 1}},
